@@ -50,16 +50,25 @@ Emptyish(a, v) == v # Absent /\ ((a.nest \in ContainerNests /\ v.cn = 0) \/ (a.k
 \* reading is allowed
 IsContainer(a) == a.nest \in ContainerNests \/ a.kind = "bytes"
 EmptyOf(a) == IF a.kind = "bytes" THEN V("bytes", 0, "plain", 1) ELSE V(a.kind, 3, "plain", 0)
+\* A Default on a list / map attribute (bodies): an attribute the caller left unset (nil) arrives as the default, like any other
+\* defaulted attribute.  A collection the caller set to EMPTY on purpose is something else: the property statement only knows
+\* "unset", and nil / empty are the same "nothing there" (above), so it may arrive empty or nil - but not as the non-empty
+\* default: that is a value the caller did not send ("none is ... retyped or swapped"), and a JSON body can carry the
+\* difference between [] and nothing (so the empty collection must be ON the wire: if it is left out, the receiver cannot but
+\* inject the default).  The same holds for results.  Whether an explicitly empty collection counts as present for the
+\* validations (MinLength) is not said: both readings (empty -> checked, nil -> nothing to check) are allowed, as for every
+\* other empty collection.  The zero-value-or-default latitude of scalars does not apply: [0] is not the zero value of a list.
+ZeroScalar(a, v) == IsZero(v) /\ ~IsContainer(a)
 AllowedDelivered(a, v) ==
   IF v = Absent THEN (IF a.mode = "default" THEN {DefaultOf(a)} ELSE IF IsContainer(a) /\ a.mode = "required" THEN {Absent, EmptyOf(a)} ELSE {Absent})
   ELSE IF Emptyish(a, v) THEN {v, Absent}
-  ELSE IF a.mode = "default" /\ IsZero(v) THEN {v, DefaultOf(a)}
+  ELSE IF a.mode = "default" /\ ZeroScalar(a, v) THEN {v, DefaultOf(a)}
   ELSE {v}
 \* where the attribute may be seen on the wire
 AllowedWhere(a, v) ==
   IF v = Absent THEN (IF a.mode = "default" \/ IsContainer(a) THEN {a.loc, "none"} ELSE {"none"})
-  ELSE IF Emptyish(a, v) THEN {a.loc, "none"}
-  ELSE IF a.mode = "default" /\ IsZero(v) THEN {a.loc, "none"}
+  ELSE IF Emptyish(a, v) THEN (IF a.mode = "default" THEN {a.loc} ELSE {a.loc, "none"})
+  ELSE IF a.mode = "default" /\ ZeroScalar(a, v) THEN {a.loc, "none"}
   ELSE {a.loc}
 \* a payload surely satisfies the design when every allowed reading of every attribute is valid
 Satisfies(as, vs) == \A i \in DOMAIN as : \A d \in AllowedDelivered(as[i], vs[i]) : ValidAttr(as[i], d)
@@ -95,8 +104,12 @@ ClientWire(a, v) ==
 \* or the other depending on the location and the type; all three are within the oracle
 \* a required list / map / byte string left unset is sent empty by some encoders (bodies), not at all by others
 WireChoices(a, v) ==
-  IF v # Absent /\ a.mode = "default" /\ IsZero(v)
+  IF v # Absent /\ a.mode = "default" /\ ZeroScalar(a, v)
   THEN {ClientWire(a, v), ClientWire(a, DefaultOf(a)), [loc |-> "none", v |-> Absent]}
+  \* a defaulted list / map left unset: the encoder writes the default into the body (request: client body init, response:
+  \* server body init), or leaves it out and the decoder fills it in; set to empty it travels as it is ([] / {})
+  ELSE IF v = Absent /\ a.mode = "default" /\ IsContainer(a)
+  THEN {ClientWire(a, DefaultOf(a)), [loc |-> "none", v |-> Absent]}
   ELSE IF v = Absent /\ a.mode = "required" /\ IsContainer(a)
   THEN {ClientWire(a, v), [loc |-> a.loc, v |-> EmptyOf(a)]}
   ELSE {ClientWire(a, v)}
